@@ -409,4 +409,470 @@ theorem fields_as_targets (recF : S → Nat → Go.M (S × Interface τ κ ρ)) 
       simp only [he', Bool.not_false, if_true, pure_bind] at h ⊢
       exact ih ids st h
 
+theorem mapKeys_eq (m : Go.GMap Go.Str) : Go.mapKeys m = SetM.elems m := by cases m <;> rfl
+
+theorem height_pos {ρ' σ' : Type} (T : Ty ρ' σ') : 0 < height T := by
+  cases T with
+  | mk self own emb => rw [height]; omega
+
+theorem has_one (s : Go.GMap Go.Str) (x : Go.Str) : SetM.has s [x] = decide (x ∈ SetM.elems s) := by
+  unfold SetM.has
+  by_cases h : (SetM.elems s).length = 0
+  · have : SetM.elems s = [] := List.eq_nil_of_length_eq_zero h
+    simp [this]
+  · simp [h]
+
+theorem add_one (s : Go.GMap Go.Str) (x : Go.Str) :
+    (SetM.add s [x]).1 = some (SetM.insert (SetM.elems s) x) := by
+  simp [SetM.add, SetM.addStep]
+
+theorem forIn_body_congr {α β : Type} (xs : List α) (b : β) (body body' : α → β → Go.M (ForInStep β))
+    (h : ∀ a b, body a b = body' a b) : forIn xs b body = forIn xs b body' := by
+  have : body = body' := by funext a b; exact h a b
+  rw [this]
+
+theorem kvValues_key (l : List (Name × Method τ κ)) (h : KeyOK l) : (Go.kvValues l).map key = l := by
+  induction l with
+  | nil => rfl
+  | cons e l ih =>
+    simp only [Go.kvValues, List.map_cons, List.map_map] at ih ⊢
+    rw [ih (fun e' h' => h e' (List.mem_cons_of_mem _ h'))]
+    have := h e List.mem_cons_self
+    obtain ⟨a, b⟩ := e
+    simp only [key] at this ⊢
+    simp only [Function.comp, this]
+
+/-- one iteration of the first inner loop of the translated code is `goMergeStep` -/
+theorem merge_body (a : Method τ κ) (b : Interface τ κ ρ × Go.KV Go.Str (Method τ κ) × Go.GMap Go.Str) :
+    (do
+      let c9 ← Generated.GoSet.Set.Has b.2.2 [a.Name]
+      if c9 = true then pure (ForInStep.yield (b.1, b.2.1, b.2.2))
+      else
+        if Go.kvHas b.2.1 a.Name = true then do
+          let r10 ← Generated.GoSet.Set.Add b.2.2 [a.Name]
+          let r11 ← Generated.GoSet.Set.Add b.1.ambiguous [a.Name]
+          pure (ForInStep.yield
+            ({ IsInterface := b.1.IsInterface, Comments := b.1.Comments, Name := b.1.Name,
+               TypeRef := b.1.TypeRef, Methods := b.1.Methods, ambiguous := r11.1 },
+              Go.kvDelete b.2.1 a.Name, r10.1))
+        else pure (ForInStep.yield (b.1, Go.kvSet b.2.1 a.Name a, b.2.2)) : Go.M _) =
+      pure (ForInStep.yield (goMergeStep b a)) := by
+  obtain ⟨r, m, i⟩ := b
+  simp only [C07Tie.go_has_eq, C07Tie.go_add_eq, pure_bind, has_one, add_one, goMergeStep,
+    decide_eq_true_eq]
+  split
+  · rfl
+  · split <;> rfl
+
+theorem amb_body (a : Go.Str) (b : Interface τ κ ρ × Go.KV Go.Str (Method τ κ) × Go.GMap Go.Str) :
+    (do
+      let c12 ← Generated.GoSet.Set.Has b.2.2 [a]
+      if c12 = true then pure (ForInStep.yield (b.1, b.2.1, b.2.2))
+      else do
+        let r13 ← Generated.GoSet.Set.Add b.2.2 [a]
+        let r14 ← Generated.GoSet.Set.Add b.1.ambiguous [a]
+        pure (ForInStep.yield
+          ({ IsInterface := b.1.IsInterface, Comments := b.1.Comments, Name := b.1.Name,
+             TypeRef := b.1.TypeRef, Methods := b.1.Methods, ambiguous := r14.1 },
+            Go.kvDelete b.2.1 a, r13.1)) : Go.M _) =
+      pure (ForInStep.yield (goAmbStep b a)) := by
+  obtain ⟨r, m, i⟩ := b
+  simp only [C07Tie.go_has_eq, C07Tie.go_add_eq, pure_bind, has_one, add_one, goAmbStep,
+    decide_eq_true_eq]
+  split <;> rfl
+
+/-! ## the translated function = the model, for every graph -/
+
+section main
+variable (env : Env S σ τ κ ρ π) (g : Graph σ) (opts : Go.U64) (hexp : ExportedOK g)
+
+include hexp in
+mutual
+theorem go_nti : ∀ (T : Ty Nat (Nat × Func σ)) (fuel : Nat) (s : S) (t : Nat), Unf g t T →
+    height T ≤ fuel →
+    ∃ res : Interface τ κ ρ, namedTypeToInterface env g fuel s t opts = pure ((modelNti env g opts s T).1, res) ∧
+      RelI res (modelNti env g opts s T).2
+  | .mk self own emb, fuel, s, t => by
+    intro hu hh
+    rw [Unf] at hu
+    obtain ⟨rfl, rfl, ids, htg, hemb⟩ := hu
+    rw [height] at hh
+    obtain ⟨f, rfl⟩ : ∃ f, fuel = f + 1 := ⟨fuel - 1, by omega⟩
+    have hf : heightL emb ≤ f := by omega
+    have hx := hexp self
+    rw [namedTypeToInterface]
+    unfold modelNti
+    rw [nti]
+    unfold ownM ownOf at *
+    unfold fieldsOf at htg
+    by_cases hE : BitSetM.has opts IncludeEmbedded = true
+    · cases hund : (g self).underlying with
+      | struct fields =>
+        cases hpk : (env.findPKgByName (g self).pkgPath).2 <;>
+        by_cases hlen : ((g self).methods.length == 0) = true <;>
+        simp only [hpk, hlen, hund, hE, C11Tie.go_has_eq, pure_bind, if_true, if_false, Bool.false_eq_true,
+          Bool.not_true] at hx htg ⊢
+        all_goals
+          rw [forIn_range'_get _ _ 0 _ (Nat.zero_le _)]
+          rw [forIn_yield _ (ownStep env g self opts) (fun _ => True) (fun _ _ _ => trivial)
+            (by intro a b _; unfold ownStep visitE; split <;> rfl) _ _ trivial]
+          simp only [pure_bind, List.drop_zero, own_fold env g self opts _ hx, List.nil_append]
+          generalize hvo : visitOwn (visitE env g) (optsOf opts) (enterE env s self) _ = vo
+          have hvo' := hvo
+          unfold enterE at hvo'
+          simp only [hvo']
+          have hkeyed : (vo.2.map (·.2)).map key = vo.2 := by
+            rw [← hvo]; exact visitOwn_keyed env g self _ _ _
+          rw [forIn_yield _ (ignStep (τ := τ) (κ := κ)) (fun _ => True) (fun _ _ _ => trivial)
+            (by intro a b _; simp only [C07Tie.go_add_eq, pure_bind, add_one]; rfl) _ _ trivial]
+          simp only [pure_bind]
+          rw [forIn_range'_get _ _ 0 _ (Nat.zero_le _)]
+          rw [List.drop_zero, forIn_body_congr _ _ _
+            (fieldStep (fun s id => namedTypeToInterface env g f s id opts)) (by
+              intro field st
+              obtain ⟨ih, res, mta, ign⟩ := st
+              obtain ⟨e, ty⟩ := field
+              unfold fieldStep
+              cases e
+              · rfl
+              · have inner : ∀ id, (do
+                    let r7 ← namedTypeToInterface env g f ih id opts
+                    let __do_lift ← Go.deref (some r7.snd)
+                    let __s ← forIn __do_lift.Methods (res, mta, ign) fun m __s => do
+                          let c9 ← Generated.GoSet.Set.Has __s.snd.snd [m.Name]
+                          if c9 = true then pure (ForInStep.yield (__s.fst, __s.snd.fst, __s.snd.snd))
+                            else
+                              if Go.kvHas __s.snd.fst m.Name = true then do
+                                let r10 ← Generated.GoSet.Set.Add __s.snd.snd [m.Name]
+                                let r11 ← Generated.GoSet.Set.Add __s.fst.ambiguous [m.Name]
+                                pure (ForInStep.yield
+                                      ({ IsInterface := __s.fst.IsInterface, Comments := __s.fst.Comments,
+                                          Name := __s.fst.Name, TypeRef := __s.fst.TypeRef,
+                                          Methods := __s.fst.Methods, ambiguous := r11.fst },
+                                        Go.kvDelete __s.snd.fst m.Name, r10.fst))
+                              else pure (ForInStep.yield (__s.fst, Go.kvSet __s.snd.fst m.Name m, __s.snd.snd))
+                    let __do_lift ← Go.deref (some r7.snd)
+                    let __s ← forIn (Go.mapKeys __do_lift.ambiguous) (__s.fst, __s.snd.fst, __s.snd.snd) fun name __s => do
+                          let c12 ← Generated.GoSet.Set.Has __s.snd.snd [name]
+                          if c12 = true then pure (ForInStep.yield (__s.fst, __s.snd.fst, __s.snd.snd))
+                            else do
+                              let r13 ← Generated.GoSet.Set.Add __s.snd.snd [name]
+                              let r14 ← Generated.GoSet.Set.Add __s.fst.ambiguous [name]
+                              pure (ForInStep.yield
+                                    ({ IsInterface := __s.fst.IsInterface, Comments := __s.fst.Comments,
+                                        Name := __s.fst.Name, TypeRef := __s.fst.TypeRef,
+                                        Methods := __s.fst.Methods, ambiguous := r14.fst },
+                                      Go.kvDelete __s.snd.fst name, r13.fst))
+                    pure (ForInStep.yield (r7.fst, __s.fst, __s.snd.fst, __s.snd.snd)) : Go.M _) =
+                    (do
+                      let r ← namedTypeToInterface env g f ih id opts
+                      pure (ForInStep.yield (r.1, absorb r.2 (res, mta, ign)))) := by
+                  intro id
+                  congr 1
+                  funext r7
+                  simp only [Go.deref, pure_bind]
+                  rw [forIn_yield _ goMergeStep (fun _ => True) (fun _ _ _ => trivial)
+                    (fun a b _ => merge_body a b) _ _ trivial]
+                  simp only [pure_bind]
+                  rw [forIn_yield _ goAmbStep (fun _ => True) (fun _ _ _ => trivial)
+                    (fun a b _ => amb_body a b) _ _ trivial]
+                  rfl
+                cases ty with
+                | pointer el =>
+                  cases el with
+                  | named id => exact inner id
+                  | other => rfl
+                | named id => exact inner id
+                | other => rfl)]
+          rw [fields_as_targets _ _ _ _ htg]
+          generalize hres0 : Interface.mk (τ := τ) (κ := κ) (ρ := ρ) false _ _ _
+            (List.map (fun x => x.snd) vo.snd) (Go.mapMake 0) = res0
+          have hm0 : res0.Methods = vo.2.map (·.2) := by rw [← hres0]
+          have ha0 : res0.ambiguous = Go.mapMake 0 := by rw [← hres0]
+          generalize hign0 : List.foldl ignStep _ (List.map (fun x => x.snd) vo.snd) = ign0
+          have hnames : (vo.2.map (·.2)).map (·.Name) = vo.2.map (·.1) := by
+            have := congrArg (List.map (·.1)) hkeyed
+            simpa [key, List.map_map, Function.comp] using this
+          have hi0 : ∀ x, x ∈ SetM.elems ign0 ↔ x ∈ vo.2.map (·.1) := by
+            intro x
+            rw [← hign0, ign_fold, hnames]
+            simp [Go.mapMake, SetM.elems]
+          obtain ⟨gs', h1, h2, h3, h4⟩ := go_emb emb ids f vo.1 (res0, Go.kvMake, ign0)
+            ⟨vo.2.map (·.1), [], []⟩ hemb hf
+            ⟨rfl, fun x => (hi0 x).symm, by simp [ha0, Go.mapMake, SetM.elems]⟩
+            (by intro e he; cases he)
+          rw [h1]
+          simp only [pure_bind]
+          rw [forIn_yield _ addStep (fun _ => True) (fun _ _ _ => trivial) (by intro a b _; rfl) _ _ trivial,
+            add_fold]
+          have hemb' : (optsOf opts).embedded = true := hE
+          simp only [hemb', Bool.not_true, Bool.false_eq_true, if_false, pure_bind]
+          refine ⟨_, rfl, ?_, ?_⟩
+          · show List.map key (gs'.1.Methods ++ Go.kvValues gs'.2.1) = vo.2 ++ _
+            rw [List.map_append, h4, hm0, hkeyed, ← h2.1, kvValues_key _ h3]
+          · intro x; exact (h2.2.2 x).symm
+      | iface ms =>
+        have hids : ids = [] := by
+          simp only [hund] at htg
+          simpa [targets] using htg.symm
+        subst hids
+        have hemb0 : emb = [] := by
+          cases emb with
+          | nil => rfl
+          | cons T Ts =>
+            rw [UnfL] at hemb
+            obtain ⟨_, _, h, _⟩ := hemb
+            cases h
+        subst hemb0
+        have hemb' : (optsOf opts).embedded = true := hE
+        cases hpk : (env.findPKgByName (g self).pkgPath).2 <;>
+        by_cases hlen : ((g self).methods.length == 0) = true <;>
+        simp only [hpk, hlen, hund, hE, C11Tie.go_has_eq, pure_bind, if_true, if_false, Bool.false_eq_true,
+          Bool.not_true] at hx ⊢
+        all_goals
+          rw [forIn_range'_get _ _ 0 _ (Nat.zero_le _)]
+          rw [forIn_yield _ (ownStep env g self opts) (fun _ => True) (fun _ _ _ => trivial)
+            (by intro a b _; unfold ownStep visitE; split <;> rfl) _ _ trivial]
+          simp only [pure_bind, List.drop_zero, own_fold env g self opts _ hx, List.nil_append]
+          generalize hvo : visitOwn (visitE env g) (optsOf opts) (enterE env s self) _ = vo
+          have hvo' := hvo
+          unfold enterE at hvo'
+          simp only [hvo']
+          have hkeyed : (vo.2.map (·.2)).map key = vo.2 := by
+            rw [← hvo]; exact visitOwn_keyed env g self _ _ _
+          simp only [hemb', Bool.not_true, Bool.false_eq_true, if_false, ntiEmb]
+          refine ⟨_, rfl, ?_, ?_⟩
+          · show List.map key (List.map (fun x => x.snd) vo.snd) = _
+            rw [hkeyed]; try simp
+          · intro x; simp [Go.mapMake, SetM.elems]
+      | other =>
+        have hids : ids = [] := by
+          simp only [hund] at htg
+          simpa [targets] using htg.symm
+        subst hids
+        have hemb0 : emb = [] := by
+          cases emb with
+          | nil => rfl
+          | cons T Ts =>
+            rw [UnfL] at hemb
+            obtain ⟨_, _, h, _⟩ := hemb
+            cases h
+        subst hemb0
+        have hemb' : (optsOf opts).embedded = true := hE
+        cases hpk : (env.findPKgByName (g self).pkgPath).2 <;>
+        by_cases hlen : ((g self).methods.length == 0) = true <;>
+        simp only [hpk, hlen, hund, hE, C11Tie.go_has_eq, pure_bind, if_true, if_false, Bool.false_eq_true,
+          Bool.not_true] at hx ⊢
+        all_goals
+          rw [forIn_range'_get _ _ 0 _ (Nat.zero_le _)]
+          rw [forIn_yield _ (ownStep env g self opts) (fun _ => True) (fun _ _ _ => trivial)
+            (by intro a b _; unfold ownStep visitE; split <;> rfl) _ _ trivial]
+          simp only [pure_bind, List.drop_zero, own_fold env g self opts _ hx, List.nil_append]
+          generalize hvo : visitOwn (visitE env g) (optsOf opts) (enterE env s self) _ = vo
+          have hvo' := hvo
+          unfold enterE at hvo'
+          simp only [hvo']
+          have hkeyed : (vo.2.map (·.2)).map key = vo.2 := by
+            rw [← hvo]; exact visitOwn_keyed env g self _ _ _
+          simp only [hemb', Bool.not_true, Bool.false_eq_true, if_false, ntiEmb]
+          refine ⟨_, rfl, ?_, ?_⟩
+          · show List.map key (List.map (fun x => x.snd) vo.snd) = _
+            rw [hkeyed]; try simp
+          · intro x; simp [Go.mapMake, SetM.elems]
+    · have hE' : BitSetM.has opts IncludeEmbedded = false := by simpa using hE
+      have hemb' : (optsOf opts).embedded = false := hE'
+      cases hund : (g self).underlying <;>
+      cases hpk : (env.findPKgByName (g self).pkgPath).2 <;>
+      by_cases hlen : ((g self).methods.length == 0) = true <;>
+      simp only [hpk, hlen, hund, hE', C11Tie.go_has_eq, pure_bind, if_true, if_false, Bool.false_eq_true,
+        Bool.not_false] at hx ⊢
+      all_goals
+        rw [forIn_range'_get _ _ 0 _ (Nat.zero_le _)]
+        rw [forIn_yield _ (ownStep env g self opts) (fun _ => True) (fun _ _ _ => trivial)
+          (by intro a b _; unfold ownStep visitE; split <;> rfl) _ _ trivial]
+        simp only [pure_bind, List.drop_zero, own_fold env g self opts _ hx, List.nil_append]
+        generalize hvo : visitOwn (visitE env g) (optsOf opts) (enterE env s self) _ = vo
+        have hvo' := hvo
+        unfold enterE at hvo'
+        simp only [hvo']
+        have hkeyed : (vo.2.map (·.2)).map key = vo.2 := by
+          rw [← hvo]; exact visitOwn_keyed env g self _ _ _
+        simp only [hemb', Bool.not_false, if_true]
+        refine ⟨_, rfl, ?_, ?_⟩
+        · show List.map key (List.map (fun x => x.snd) vo.snd) = _
+          rw [hkeyed]; try simp
+        · intro x; simp [Go.mapMake, SetM.elems]
+theorem go_emb : ∀ (Ts : List (Ty Nat (Nat × Func σ))) (ids : List Nat) (fuel : Nat) (s : S)
+    (gs : Interface τ κ ρ × Go.KV Go.Str (Method τ κ) × Go.GMap Go.Str) (st : Merge (Method τ κ)),
+    UnfL g ids Ts → heightL Ts ≤ fuel → R gs st → KeyOK st.toAdd →
+    ∃ gs', forIn ids ((s, gs) : LoopSt S τ κ ρ)
+        (idStep (fun s id => namedTypeToInterface env g fuel s id opts)) =
+        pure ((ntiEmb (enterE env) (visitE env g) true (optsOf opts) s Ts st).1, gs') ∧
+      R gs' (ntiEmb (enterE env) (visitE env g) true (optsOf opts) s Ts st).2 ∧
+      KeyOK (ntiEmb (enterE env) (visitE env g) true (optsOf opts) s Ts st).2.toAdd ∧
+      gs'.1.Methods = gs.1.Methods
+  | [], ids, fuel, s, gs, st => by
+    intro hu _ hR hK
+    rw [UnfL] at hu
+    subst hu
+    rw [ntiEmb]
+    exact ⟨gs, rfl, hR, hK, rfl⟩
+  | T :: Ts, ids, fuel, s, gs, st => by
+    intro hu hh hR hK
+    rw [UnfL] at hu
+    obtain ⟨id, rest, rfl, hT, hTs⟩ := hu
+    rw [heightL] at hh
+    obtain ⟨res, hrun, hrel1, hrel2⟩ := go_nti T fuel s id hT (by omega)
+    rw [ntiEmb, List.forIn_cons]
+    simp only [idStep, hrun, pure_bind, if_true]
+    have hR2 : R (absorb res gs) (List.foldl ambStep
+        (List.foldl mergeStep st (modelNti env g opts s T).2.methods) (modelNti env g opts s T).2.amb) := by
+      unfold absorb
+      rw [← hrel1]
+      apply R_amb_congr _ _ (Go.mapKeys res.ambiguous)
+      · intro x; rw [mapKeys_eq]; exact hrel2 x
+      · exact foldl_goAmbStep_R _ _ _ (foldl_goMergeStep_R _ _ _ hR)
+    have hK2 : KeyOK (List.foldl ambStep
+        (List.foldl mergeStep st (modelNti env g opts s T).2.methods) (modelNti env g opts s T).2.amb).toAdd := by
+      intro e he
+      rcases mem_foldl_mergeStep_toAdd _ _ e (mem_foldl_ambStep_toAdd _ _ e he) with h | h
+      · exact hK e h
+      · rw [← hrel1] at h
+        obtain ⟨m, _, rfl⟩ := List.mem_map.1 h
+        rfl
+    obtain ⟨gs', h1, h2, h3, h4⟩ := go_emb Ts rest fuel (modelNti env g opts s T).1 (absorb res gs) _ hTs
+      (by omega) hR2 hK2
+    refine ⟨gs', h1, h2, h3, ?_⟩
+    rw [h4]
+    unfold absorb
+    rw [foldl_goAmbStep_methods, foldl_goMergeStep_methods]
+end
+end main
+
+/-! ## the obligations -/
+
+section obligations
+variable (env : Env S σ τ κ ρ π) (g : Graph σ) (opts : Go.U64)
+
+/-- **Tie A for C19 (b).**  For EVERY type graph whose `Exported()` flags are those of the names,
+every named type `t` whose unfolding `T` exists (no embedding cycle below `t`), every fuel at least the
+height of `T`, every option set, every import-handler state and every behaviour of the external
+functions: the translated `namedTypeToInterface` does not panic and returns exactly the model's
+merge - the same import-handler state, the same methods in the same order (each with the fields
+`Name`, `IsExported`, `Comments` and the rest `MethodFromSignature` produced), and the same set of
+ambiguous names. -/
+theorem go_namedTypeToInterface_eq (hexp : ExportedOK g) (T : Ty Nat (Nat × Func σ)) (fuel : Nat)
+    (s : S) (t : Nat) (hu : Unf g t T) (hh : height T ≤ fuel) :
+    ∃ res : Interface τ κ ρ,
+      namedTypeToInterface env g fuel s t opts = pure ((modelNti env g opts s T).1, res) ∧
+      res.Methods.map key = (modelNti env g opts s T).2.methods ∧
+      ∀ x, x ∈ Go.mapElems res.ambiguous ↔ x ∈ (modelNti env g opts s T).2.amb := by
+  obtain ⟨res, h1, h2, h3⟩ := go_nti env g opts hexp T fuel s t hu hh
+  exact ⟨res, h1, h2, fun x => by rw [← h3]; cases res.ambiguous <;> rfl⟩
+
+/-- the method names the translated code renders -/
+def goNames (res : Interface τ κ ρ) : List Name := res.Methods.map (·.Name)
+
+theorem goNames_eq (res : Interface τ κ ρ) (l : List (Name × Method τ κ)) (h : res.Methods.map key = l) :
+    goNames res = namesOf l := by
+  rw [← h, goNames, namesOf, List.map_map]; rfl
+
+/-- **embedded_methods_exact for the translated code.**  With IncludeEmbedded, whatever the
+translated function returns on a graph whose types declare each method name once (`WF`): a name is
+rendered iff it passes the private filter and the specification (the property text read
+recursively: defined by the type, or under exactly one embedded field and in that field's
+interface) has it - at any embedding depth. -/
+theorem go_embedded_methods_exact (hexp : ExportedOK g) (T : Ty Nat (Nat × Func σ)) (fuel : Nat)
+    (s : S) (t : Nat) (hu : Unf g t T) (hh : height T ≤ fuel) (hwf : WF T)
+    (ho : BitSetM.has opts IncludeEmbedded = true) (s' : S) (res : Interface τ κ ρ)
+    (hrun : namedTypeToInterface env g fuel s t opts = pure (s', res)) (n : Name) :
+    n ∈ goNames res ↔ keep (optsOf opts) n = true ∧ specHas T n = true := by
+  obtain ⟨res', h1, h2, _⟩ := go_nti env g opts hexp T fuel s t hu hh
+  rw [h1] at hrun
+  have hres : res' = res := (Prod.mk.inj (Except.ok.inj hrun)).2
+  subst hres
+  rw [goNames_eq res' _ h2]
+  have hok := nti_ok (enterE env) (visitE env g) (optsOf opts) ho T hwf s
+  constructor
+  · intro h
+    have hk := nti_keepG (enterE env) (visitE env g) true (optsOf opts) T s n h
+    exact ⟨hk, (hok.2.1 n hk).1 h⟩
+  · rintro ⟨hk, hs⟩
+    exact (hok.2.1 n hk).2 hs
+
+/-- **private_filter for the translated code (all depths).**  Every method the translated function
+returns - own or promoted - passes the private filter: without IncludePrivate it is exported. -/
+theorem go_private_filter (hexp : ExportedOK g) (T : Ty Nat (Nat × Func σ)) (fuel : Nat)
+    (s : S) (t : Nat) (hu : Unf g t T) (hh : height T ≤ fuel) (s' : S) (res : Interface τ κ ρ)
+    (hrun : namedTypeToInterface env g fuel s t opts = pure (s', res)) :
+    ∀ n ∈ goNames res, BitSetM.has opts IncludePrivate = true ∨ exported n = true := by
+  obtain ⟨res', h1, h2, _⟩ := go_nti env g opts hexp T fuel s t hu hh
+  rw [h1] at hrun
+  have hres : res' = res := (Prod.mk.inj (Except.ok.inj hrun)).2
+  subst hres
+  intro n hn
+  rw [goNames_eq res' _ h2] at hn
+  have hk := nti_keepG (enterE env) (visitE env g) true (optsOf opts) T s n hn
+  simpa [keep, optsOf] using hk
+
+/-- **private_filter (own methods) for the translated code.**  Without IncludeEmbedded the
+translated function renders exactly the methods of the type that pass the filter, in declaration
+order; so the result without IncludePrivate is the exported part of the result with it. -/
+theorem go_without_embedded (hexp : ExportedOK g) (T : Ty Nat (Nat × Func σ)) (fuel : Nat)
+    (s : S) (t : Nat) (hu : Unf g t T) (hh : height T ≤ fuel)
+    (ho : BitSetM.has opts IncludeEmbedded = false) (s' : S) (res : Interface τ κ ρ)
+    (hrun : namedTypeToInterface env g fuel s t opts = pure (s', res)) :
+    goNames res = ((ownOf g t).map (·.name)).filter (keep (optsOf opts)) := by
+  obtain ⟨res', h1, h2, _⟩ := go_nti env g opts hexp T fuel s t hu hh
+  rw [h1] at hrun
+  have hres : res' = res := (Prod.mk.inj (Except.ok.inj hrun)).2
+  subst hres
+  rw [goNames_eq res' _ h2]
+  cases T with
+  | mk self own emb =>
+    rw [Unf] at hu
+    obtain ⟨rfl, rfl, _⟩ := hu
+    unfold modelNti
+    rw [nti]
+    have ho' : (optsOf opts).embedded = false := ho
+    simp only [ho', Bool.not_false, if_true]
+    rw [visitOwn_namesOf]
+    simp only [ownM, namesOf, List.map_map]
+    rfl
+
+/-! ### a kernel-evaluated sample (non-vacuity): the doc comment's `C{A;B}`, two levels -/
+
+def sampleEnv : Env Unit Unit Unit Unit Unit Unit where
+  findPKgByName := fun _ => ((), true)
+  extractTypeRef := fun _ _ => ((), ())
+  methodFromSignature := fun _ _ => ((), ⟨Go.str "func", (), false, ()⟩)
+  commentsFromObj := fun _ _ => ()
+  commentsFromMethod := fun _ _ _ => ()
+
+def fn (n : String) : Func Unit := ⟨Go.str n, exported (Go.str n), ()⟩
+
+/-- `0: C{A; *B; x int}` with `Blah`, `1: A` with `Foo`, `Bar`, `2: B{D}` with `Foo`, `Baz`, `3: D`
+with `Bar`, `q` -/
+def sampleG : Graph Unit := fun t =>
+  match t with
+  | 0 => ⟨Go.str "C", [], [fn "Blah"], .struct [⟨true, .named 1⟩, ⟨false, .other⟩, ⟨true, .pointer (.named 2)⟩]⟩
+  | 1 => ⟨Go.str "A", [], [fn "Foo", fn "Bar"], .struct []⟩
+  | 2 => ⟨Go.str "B", [], [fn "Foo", fn "Baz"], .struct [⟨true, .named 3⟩]⟩
+  | _ => ⟨Go.str "D", [], [fn "Bar", fn "q"], .other⟩
+
+example :
+    (namedTypeToInterface sampleEnv sampleG 3 () 0 3).map (fun r => (goNames r.2, Go.mapElems r.2.ambiguous)) =
+      .ok ([Go.str "Blah", Go.str "Baz", Go.str "q"], [Go.str "Foo", Go.str "Bar"]) ∧
+    (namedTypeToInterface sampleEnv sampleG 3 () 0 2).map (fun r => goNames r.2) =
+      .ok [Go.str "Blah", Go.str "Baz"] ∧
+    (namedTypeToInterface sampleEnv sampleG 2 () 0 3).map (fun r => goNames r.2) = .error "out of fuel" ∧
+    Unf sampleG 0 (.mk 0 (ownM sampleG 0) [.mk 1 (ownM sampleG 1) [],
+      .mk 2 (ownM sampleG 2) [.mk 3 (ownM sampleG 3) []]]) := by
+  refine ⟨by rfl, by rfl, by rfl, ?_⟩
+  simp only [Unf, UnfL]
+  exact ⟨trivial, trivial, [1, 2], rfl, 1, [2], rfl, ⟨rfl, rfl, [], rfl, rfl⟩, 2, [], rfl,
+    ⟨rfl, rfl, [3], rfl, 3, [], rfl, ⟨rfl, rfl, [], rfl, rfl⟩, rfl⟩, rfl⟩
+
+end obligations
+
 end C19Merge
